@@ -50,45 +50,33 @@ def check(ctx):
     opens = b.calls_to(OO + "::open")
     modes = b.calls_to(OO + "::mode")
     ctx.floor(R1, "OpenOptions::open in write_file", len(opens), 1)
-    ctx.floor(R1, "OpenOptions::mode in write_file", len(modes), 1)
     for o in opens:
         recv = arg_origins(o, 0)
         mine = [m for m in modes if arg_origins(m, 0).locals & recv.locals]
         ok, hit = unreachable_without(b, [o.bb], removed_nodes=[m.bb for m in mine])
         ctx.require(R1, bool(mine) and ok, o.where(), "every path to open() sets the mode on the same OpenOptions value (the file is never created with the default mode)", [WF, "open-without-mode"])
-    # table
+    # table: success-path traces for every (file exists, file type)
+    from .storage_common import write_file_traces, index_of
     acct = prog.const("acmed::DEFAULT_ACCOUNT_FILE_MODE").get("int")
-    found = False
-    for i in sorted(b.live_blocks()):
-        t = b.term(i)
-        if t["t"] != "switch":
-            continue
-        names = discr_names(b, i)
-        if not names or set(names.values()) != set(prog.adt_variants(FT)):
-            continue
-        it = Interp(b)
-        rows = {}
-        for v, tg in t["arms"] + [[None, t["otherwise"]]]:
-            if v is None and len(t["arms"]) >= len(names):
-                continue
-            r = it.run({}, start_bb=tg)
-            mc = [c for c in r.calls if c[0].is_(OO + "::mode")]
-            if not mc:
-                continue
-            rows[names.get(v, "otherwise")] = mc[0][1][1]
-        if not rows:
-            continue
-        found = True
-        for var, exp in MODE_TABLE.items():
-            got = rows.get(var)
-            if isinstance(exp, tuple):
-                good = got is not None and got.k == "int" and got.v == acct
-                txt = "%s (= %s)" % (exp[1], oct(acct) if acct is not None else "?")
-            else:
-                good = got is not None and got.k == "unknown" and (got.v or "").endswith(exp)
-                txt = "fm" + exp
-            ctx.require(R1, good, where(b, i), "mode of the %s file is %s (found %r)" % (var, txt, got), [WF, "mode-table", var])
-    ctx.require(R1, found, "%s:%s" % (b.file, b.line), "the match on FileType feeding OpenOptions::mode was located", [WF, "mode-match"])
+    traces = write_file_traces(prog)
+    ctx.floor(R1, "write_file success-path traces", len(traces), 6)
+    for (exists, ft), tr in sorted(traces.items()):
+        ev = tr["events"]
+        i_open = index_of(ev, lambda e: e[0] == "oo.open")
+        modes = [e[1] for e in ev[:max(i_open, 0)] if e[0] == "oo.mode"]
+        exp = MODE_TABLE[ft]
+        if isinstance(exp, tuple):
+            good = modes == [acct]
+            txt = "%s (= %s)" % (exp[1], oct(acct) if acct is not None else "?")
+        else:
+            good = len(modes) == 1 and isinstance(modes[0], str) and modes[0].endswith(exp)
+            txt = "fm" + exp
+        ctx.require(R1, tr["kind"] == "return" and i_open >= 0 and good, "%s:%s" % (b.file, b.line),
+                    "%s file (%s): mode set before open = %s (found %s)" % (ft, "rewrite" if exists else "creation", txt, modes), [WF, "mode-table", ft, "exists" if exists else "new"])
+        i_w = index_of(ev, lambda e: e[0] == "write_all")
+        so = [(i, e) for i, e in enumerate(ev) if e[0] == "set_owner"]
+        ctx.require(R1, len(so) == 1 and so[0][0] > i_w >= 0 and ft in " ".join(so[0][1][1]), "%s:%s" % (b.file, b.line),
+                    "%s file (%s): set_owner(path, %s) after the write" % (ft, "rewrite" if exists else "creation", ft), [WF, "owner-call", ft, "exists" if exists else "new"])
     for cname, exp in (("acmed::DEFAULT_CERT_FILE_MODE", 0o644), ("acmed::DEFAULT_PK_FILE_MODE", 0o600), ("acmed::DEFAULT_ACCOUNT_FILE_MODE", 0o600)):
         v = prog.const(cname).get("int")
         ctx.require(R1, v == exp, "acmed/src/main.rs", "%s = %s (expected %s)" % (cname.rsplit("::", 1)[1], oct(v) if v is not None else v, oct(exp)), ["const", cname.rsplit("::", 1)[1]])
